@@ -220,7 +220,10 @@ pub fn stmt(s: &Value) -> String {
         "wend" => "WEND".into(),
         "end" => "END".into(),
         "stop" => "STOP".into(),
-        "rem" => format!("REM{}", s["txt"].as_str().map(|t| format!(" {}", t)).unwrap_or_default()),
+        "rem" => {
+            let t = if s.get("cp").is_some() { cps_to_string(&s["cp"]) } else { s["txt"].as_str().unwrap_or("").to_string() };
+            if t.is_empty() { "REM".into() } else { format!("REM {}", t) }
+        }
         "data" => format!(
             "DATA {}",
             s["vals"].as_array().map(|a| a.iter().map(literal).collect::<Vec<_>>().join(",")).unwrap_or_default()
@@ -284,7 +287,9 @@ pub fn stmt(s: &Value) -> String {
         "delete" => format!("DELETE{}", range_text(s)),
         "list" => format!("LIST{}", range_text(s)),
         "renum" => format!("RENUM{}", s["args"].as_str().map(|a| format!(" {}", a)).unwrap_or_default()),
-        "bad" | "raw" => s["txt"].as_str().unwrap_or("?").to_string(),
+        "bad" | "raw" => {
+            if s.get("cp").is_some() { cps_to_string(&s["cp"]) } else { s["txt"].as_str().unwrap_or("?").to_string() }
+        }
         _ => format!("REM unknown {}", k),
     }
 }
